@@ -79,6 +79,18 @@ func (e *Explorer) Step(st AState, rings []wsp.Ring, op AOp, depth int, path str
 			return AState{}, nil, false
 		}
 	}
+	switch {
+	case t.Obs.Panic != "":
+		c.Outcome(op.Kind + "/panic")
+	case t.Obs.Err != "":
+		c.Outcome(op.Kind + "/error")
+	case t.Exp.Reject:
+		c.Outcome(op.Kind + "/model-rejects")
+	case len(t.Exp.Trace.Stats) > 0:
+		c.Outcome(op.Kind + "/stored+propagated")
+	default:
+		c.Outcome(op.Kind + "/stored")
+	}
 	sig, desc := e.Judge(t)
 	if sig != "" {
 		ok := true
